@@ -21,8 +21,10 @@ theorem revChar_ne_hyphen {c : Char} (h : Policy.revChar c = true) : c ≠ '-' :
   intro e; subst e; revert h; decide
 theorem alnum_ne_hyphen {c : Char} (h : isAsciiAlnum c = true) : c ≠ '-' := by
   intro e; subst e; revert h; decide
+theorem digit_alnum {c : Char} (h : isAsciiDigit c = true) : isAsciiAlnum c = true := by
+  simp only [isAsciiDigit] at h; simp [isAsciiAlnum, Char.isAlphanum, h]
 theorem digit_upChar {c : Char} (h : isAsciiDigit c = true) : Policy.upChar c = true := by
-  simp [Policy.upChar, Policy.revChar, isAsciiAlnum, h]
+  simp [Policy.upChar, Policy.revChar, digit_alnum h]
 theorem revChar_upChar {c : Char} (h : Policy.revChar c = true) : Policy.upChar c = true := by
   simp [Policy.upChar, h]
 theorem upChar_not_hyphen_revChar {c : Char} (h : Policy.upChar c = true) (hn : c ≠ '-') :
